@@ -85,16 +85,35 @@ BOX = {}
 for _n in BOX_NAMES:
     BOX[_n] = type(_n, (Boxed,), {"__module__": __name__})
     globals()[_n.replace("Ω", "O")] = BOX[_n]
+    globals()[_n] = BOX[_n]          # importable under its own name: instances can be pickled by reference when unregistered
 
 
-def _mk_codec(cls):
+# the three codecs of the harness classes (mirrored by boxCodec / plainCodec / tolerantCodec of Driver/SerialDrv.lean):
+#   0 "box":      enc = b"+" + payload[::-1]      dec accepts b"+..." only
+#   1 "plain":    enc = b"=" + payload            dec accepts b"=..." only   (rejects what codec 0 wrote: DecodeError)
+#   2 "tolerant": enc = b"=" + payload            dec accepts both
+def codec_enc(variant: int, payload: bytes) -> bytes:
+    return b"+" + payload[::-1] if variant == 0 else b"=" + payload
+
+
+def codec_dec(variant: int, data: bytes):
+    """the payload, or None for DecodeError"""
+    if data.startswith(b"+") and variant in (0, 2):
+        return data[1:][::-1]
+    if data.startswith(b"=") and variant in (1, 2):
+        return data[1:]
+    return None
+
+
+def _mk_codec(cls, variant: int = 0):
     async def enc(value, *args, **kwargs):
-        return b"+" + value.payload[::-1]
+        return codec_enc(variant, value.payload)
 
     async def dec(value: bytes, *args, **kwargs):
-        if not value.startswith(b"+"):
+        p = codec_dec(variant, value)
+        if p is None:
             raise DecodeError()
-        return cls(value[1:][::-1])
+        return cls(p)
 
     return enc, dec
 
@@ -104,13 +123,57 @@ def register_boxes():
         register_type(cls, *_mk_codec(cls))
 
 
+def _mapping() -> dict:
+    m = getattr(Serializer, "_type_mapping", None)
+    if not isinstance(m, dict):
+        raise HarnessError("cannot reach the class-level registry of custom types (Serializer._type_mapping)")
+    return m
+
+
 def registered_tags() -> list[bytes]:
-    return sorted(Serializer._type_mapping)
+    return sorted(_mapping())
+
+
+# what `import cashews` registers by itself (the `bytes` pair): the starting point of every registration program
+BASE_REG = dict(_mapping())
+
+
+class RegistrySandbox:
+    """run a block with the class-level registry reset to what `import cashews` left, recording every registration made
+    through `register()` (in order: this log is the model's `reg=` field), and put the previous registry back afterwards.
+    Only the harness' own isolation touches `_type_mapping` directly; registrations go through the public
+    `cashews.serialize.register_type`."""
+
+    def __enter__(self):
+        m = _mapping()
+        self._saved = dict(m)
+        m.clear()
+        m.update(BASE_REG)
+        self.log: list[tuple[bytes, int | None]] = [(t, None) for t in sorted(BASE_REG)]
+        return self
+
+    def register(self, name: str, variant: int):
+        cls = BOX[name]
+        register_type(cls, *_mk_codec(cls, variant))
+        self.log.append((name.encode("utf8"), variant))
+
+    def field(self) -> str:
+        return ",".join(t.hex() + ("" if v is None else f"/{v}") for t, v in self.log) or "-"
+
+    def current(self) -> dict:
+        """tag -> codec variant in force (dict-assignment semantics, as documented for register_type)"""
+        return {t: v for t, v in self.log}
+
+    def __exit__(self, *exc):
+        m = _mapping()
+        m.clear()
+        m.update(self._saved)
+        return False
 
 
 ADV_BYTES = [b"", b"123", b"0", b"007", b"md5:x_y", b"_", b":", b"bytes:", b"bytes:123", b"\x80\x05N.", b"sum:0_",
              b"sha1:", b"md5:d41d8cd98f00b204e9800998ecf8427e_", b"I1\n.", b"a\nb", b"\x00", b"\xff\xfe", b"N.",
-             b"Item:+x", b"1_2", b"+"]
+             b"Item:+x", b"1_2", b"+", b"-5", b"-"]
 ADV_STR = ["", "_", ":", "123", "0", "md5:x_y", "bytes:abc", "é∑", "\n", "a b", "None", "\udc80", "𝔘", "'\"\\"]
 ADV_INT = [0, 1, -1, 123, -5, 2 ** 70, -(2 ** 70), 255, 10 ** 30]
 ADV_FLOAT = [0.0, -0.0, 1.5, -2.25, 1e300, 5e-324, float("inf"), float("-inf"), float("nan"), 123.0]
@@ -297,9 +360,9 @@ class Conf:
         ser.set_pickler(rec)
         return cache, backend, rec
 
-    def fields(self) -> str:
+    def fields(self, reg: str | None = None) -> str:
         sec = self.secret.encode().hex() if self.secret else "-"
-        return f"sec={sec} dig={self.digest} pk={self.pk} reg={REG_FIELD()}"
+        return f"sec={sec} dig={self.digest} pk={self.pk} reg={REG_FIELD() if reg is None else reg}"
 
 
 def all_confs() -> list[Conf]:
@@ -433,6 +496,21 @@ def show_outcome(o, ids: Ids) -> str:
     if kind == "raised":
         return "raised"
     return kind
+
+
+def ask_par(driver, lines: list[str], workers: int = 6, min_chunk: int = 1500) -> list[str]:
+    """`driver.ask(lines)` for the STATELESS serializer protocol (one request line, one answer line, no state between
+    lines - see Driver/SerialDrv.lean), split over several driver processes run concurrently"""
+    if len(lines) < 2 * min_chunk:
+        return driver.ask(lines) if lines else []
+    import concurrent.futures
+
+    k = min(workers, max(1, len(lines) // min_chunk))
+    size = -(-len(lines) // k)
+    chunks = [lines[i:i + size] for i in range(0, len(lines), size)]
+    with concurrent.futures.ThreadPoolExecutor(max_workers=len(chunks)) as ex:
+        parts = list(ex.map(driver.ask, chunks))
+    return [a for part in parts for a in part]
 
 
 def check_labels(driver) -> None:
